@@ -3,6 +3,8 @@ import PyAirtouch.Spec.Crc
 import PyAirtouch.Spec.Trace
 import PyAirtouch.Spec.TraceParse
 import PyAirtouch.Spec.Heartbeat
+import PyAirtouch.Spec.At5Read
+import PyAirtouch.Spec.At4Read
 import PyAirtouch.Spec.Discovery
 /-! Line-protocol oracle over the *specification* only (never imports Gen or Model). -/
 open PyAirtouch PyAirtouch.Util PyAirtouch.Spec
@@ -11,6 +13,36 @@ structure OState where
   trace : List Trace.Ev := []
 
 def b2s (b : Bool) : String := if b then "1" else "0"
+
+/-- `spec <gen> <kind> <hex>`: the vendor reader's rendered text of a payload, or `none`.
+Control kinds append the Spec's list of attributes the command does not keep (` changes=a,b`; one list per
+record, records separated by `|`) and, for AirTouch 4, the Spec's `wellFormed` verdict. -/
+def specRead (gen kind : String) (bs : List Nat) : String :=
+  let opt (o : Option String) : String := o.getD "none"
+  match gen, kind with
+  | "4", "2B" => opt ((At4.readGroupStatus bs).map At4.renderGroupStatus)
+  | "4", "2D" => opt ((At4.readAcStatus bs).map At4.renderAcStatus)
+  | "4", "FF11" => opt ((At4.readAcAbility bs).map At4.renderAcAbility)
+  | "4", "FF12" => opt ((At4.readGroupNames bs).map At4.renderGroupNames)
+  | "4", "FF10" => opt ((At4.readAcError bs).map At4.renderAcError)
+  | "4", "FF30" => opt ((At4.readConsoleVersion bs).map At4.renderConsoleVersion)
+  | "4", "2A" => opt ((At4.readGroupControl bs).map fun c =>
+      At4.renderGroupControl c ++ " changes=" ++ ",".intercalate c.changedAttrs ++
+        " well_formed=" ++ At4.showBool c.wellFormed)
+  | "4", "2C" => opt ((At4.readAcControl bs).map fun c =>
+      At4.renderAcControl c ++ " changes=" ++ ",".intercalate c.changedAttrs ++
+        " well_formed=" ++ At4.showBool c.wellFormed)
+  | "5", "C021" => opt ((At5.readZoneStatus bs).map At5.renderZoneStatus)
+  | "5", "C023" => opt ((At5.readAcStatus bs).map At5.renderAcStatus)
+  | "5", "FF11" => opt ((At5.readAcAbility bs).map At5.renderAcAbility)
+  | "5", "FF13" => opt ((At5.readZoneNames bs).map At5.renderZoneNames)
+  | "5", "FF10" => opt ((At5.readAcError bs).map At5.renderAcError)
+  | "5", "FF30" => opt ((At5.readConsoleVersion bs).map At5.renderConsoleVersion)
+  | "5", "C020" => opt ((At5.readZoneControl bs).map fun cs =>
+      At5.renderZoneControl cs ++ " changes=" ++ "|".intercalate (cs.map fun c => ",".intercalate c.changes))
+  | "5", "C022" => opt ((At5.readAcControl bs).map fun cs =>
+      At5.renderAcControl cs ++ " changes=" ++ "|".intercalate (cs.map fun c => ",".intercalate c.changes))
+  | _, _ => "bad-op"
 
 def answer (st : OState) (ws : List String) : OState × String :=
   match ws with
@@ -33,6 +65,10 @@ def answer (st : OState) (ws : List String) : OState × String :=
         s!"R(id={toHex r.airtouchId},name={match r.name with | some n => toHex n | none => "None"},serial={toHex r.serial},host={toHex r.host})"
       (st, s!"sent={Discovery.expectedRequests g arr} ret={Discovery.returnTime g arr} resp=[{",".intercalate ((Discovery.expectedResponses g arr).map showR)}]")
     | _, _ => (st, "bad-op")
+  | ["spec", gen, kind, h] =>
+    match parseHex h with
+    | some bs => (st, specRead gen kind bs)
+    | none => (st, "bad-op")
   | ["trace-begin"] => ({ st with trace := [] }, "ok")
   | "ev" :: rest =>
     match Trace.parseEv rest with
